@@ -6,6 +6,7 @@ import pass_checks
 import tagged_checks
 import dis_checks
 import thr_checks
+import pep563_checks
 import sub_checks
 import gen_checks
 import conv_checks
@@ -87,6 +88,7 @@ def _c12(v, b, tier):
 def _c19(v, b, tier):
     thr_checks.check_c19(v, b.t1_summary, 70 * SIZES[tier], 6 * SIZES[tier])
     recwarm_checks.check_recwarm_threads(v, 36 * min(SIZES[tier], 4))
+    pep563_checks.pep563_schedule_battery(v)
 
 
 def _c14(v, b, tier):
@@ -221,7 +223,9 @@ REGISTRY = {
                     "macro-steps (a step runs one thread to its next parking point: a hook factory on a marker field type blocks it mid-generation), "
                     "both directions; every structure-direction schedule is run twice, with the working set as in the source and with it rebound to a "
                     "shared object (what-if), and compared with the model under the matching scope; plus free-running stress rounds (12 threads x 2 "
-                    "object graphs on one fresh converter) against a sequential reference; non-trivial = schedule of >= 3 steps"},
+                    "object graphs on one fresh converter) against a sequential reference; plus the PEP 563 schedule battery: 4 class shapes with string annotations x "
+                    "3 x 3 operations of the two threads x thread A stopped after resolving 1 or 2 annotations x both validation modes, thread B running its whole first use "
+                    "in between, compared (results of both threads and of later calls) with a sequential run on a fresh copy of the classes; non-trivial = schedule of >= 3 steps"},
     "C14": {"props_file": "Props/C14.v", "files": ["Model/Base.v", "Model/Disambig.v", "Model/Subclasses.v", "Model/Tagged.v", "Model/SubUnion.v", "Gen/DisSrc.v", "Gen/SubSrc.v", "Proofs/DisambigProofs.v", "Proofs/TaggedProofs.v", "Proofs/SubUnionProofs.v",
                                                    "Proofs/SubclassesProofs.v", "Props/C14.v"],
             "run": _c14, "t1_sections": ["disambig", "subclasses"],
